@@ -82,6 +82,25 @@ def body_special(ctx: H.BaseCtx):
                 ctx.unexpected_exception(ex, "gradient (special values)")
     if SP.bytes_of(p) != before:
         ctx.fail("mutated", "derivative changed its argument (special values)")
+    if case["k"] == 0 and not case.get("only_other"):
+        # complex content (ordinary, tiny / purely imaginary, signed zeros, non-finite parts): each kept term is numpy's product of
+        # the exponent (uint32) with the coefficient array, each other term is gone
+        with numpy.errstate(all="ignore"):
+            for label, zp in SP.zoo((2,)):
+                zexps = [tuple(int(v) for v in e) for e in zp.exponents.tolist()]
+                for var, idx in (("q0", 0), ("q1", 1)):
+                    want = {}
+                    for e, c in SP.terms(zp).items():
+                        if e[idx] > 0:
+                            ne = list(e)
+                            ne[idx] -= 1
+                            want[tuple(ne)] = (numpy.uint32(e[idx]) * c.T).T
+                    try:
+                        r = numpoly.derivative(SP.zoo((2,), only=label)[0][1], var)
+                    except Exception as ex:
+                        ctx.unexpected_exception(ex, "derivative (%s)" % label)
+                        continue
+                    SP.expect_terms(ctx, r, want, "derivative w.r.t. %s of a polynomial with %s coefficients" % (var, label))
 
 
 def body(ctx: H.BaseCtx):
@@ -144,7 +163,7 @@ def gen_cases(tier: str, seed: int) -> List[Dict]:
     cases: List[Dict] = []
     n = 0
     reps = 12 if quick else 1500
-    name_sets = [("q0",), ("q0", "q1"), ("q1", "q2"), ("q0", "q1", "q2"), ("q2", "q10")]
+    name_sets = [("q0",), ("q0", "q1"), ("q1", "q2"), ("q0", "q1", "q2"), ("q2", "q10"), ("q1", "q0"), ("q10", "q2"), ("q2", "q0", "q1")]  # (incl. names stored out of index order)
     shapes = [(), (2,), (1, 2), (2, 2)] if quick else [(), (1,), (2,), (3,), (1, 2), (2, 1), (2, 2), (2, 1, 2)]
     k = 0
     for _ in range(reps):
